@@ -205,6 +205,9 @@ class Reader(BaseValidator):
                 source_path = source_data_stream_or_path.name
             except AttributeError:
                 source_path = "<io>"
+            if source_path is None:
+                # For example an unnamed temporary file.
+                source_path = "<io>"
         self._location = errors.Location(source_path, has_cell=True)
         self._source_data_stream_or_path = source_data_stream_or_path
         self._on_error = on_error
